@@ -3,6 +3,7 @@
 //! wrong era, always rejected}): validate_txs succeeds exactly when applying the transactions one at a time succeeds, and then leaves
 //! the same state; when it fails the caller's certificate state is what it was before the call. Second family: every sequence of <= 3
 //! over {P = mary3.tx, a stake registration then a delegation to an unregistered pool: rejected AFTER the rule has written; X}.
+//! Third family: every sequence of <= 3 over {M = allegra1.tx, a transfer of instantaneous rewards: accepted, writes inst_rewards only; X} with an X in it.
 //! Exit 1 with the failing sequence if not.
 #[path = "/repo/pallas-validate/tests/common.rs"]
 #[allow(dead_code, unused_imports)]
@@ -124,6 +125,36 @@ fn main() {
                 println!("VIOLATED: sequence [{name}] failed, yet the caller's certificate state changed (reward accounts: {}, pointers: {}, delegations: {}) — P's stake registration was committed although its delegation was rejected",
                     s.dstate.rewards.len(), s.dstate.ptrs.len(), s.dstate.delegations.len());
                 std::process::exit(1);
+            }
+        }
+    }
+    // third family: M = the Allegra fixture allegra1.tx, whose only certificate moves instantaneous rewards out of the treasury — accepted, and it
+    // writes dstate.inst_rewards and nothing else; X = the same transaction under the wrong era. Every sequence over {M, X} with an X in it fails
+    // and must leave the caller's instantaneous rewards empty.
+    let text4 = std::fs::read_to_string("/repo/test_data/allegra1.tx").expect("fixture allegra1.tx");
+    let cbor4 = cbor_to_bytes(&text4);
+    let mtx4: Tx = minted_tx_from_cbor(&cbor4);
+    let utxos4: UTxOs = mk_utxo_for_alonzo_compatible_tx(&mtx4.transaction_body, &[(String::from("61b651c2062463499961b9cd594da399a5ec910fceb5c63f9eb55a224a"), Value::Coin(96_400_000), None)]);
+    let mut env4 = crate::env3(); env4.block_slot = 19_282_133;
+    let mir = || MultiEraTx::from_alonzo_compatible(&mtx4, Era::Mary);
+    let wrong4 = || MultiEraTx::from_alonzo_compatible(&mtx4, Era::Alonzo);
+    let writes = { let mut s = CertState::default(); match validate_txs(&[mir()], &env4, &utxos4, &mut s) { Ok(()) => !(s.dstate.inst_rewards.0.is_empty() && s.dstate.inst_rewards.1.is_empty()), Err(_) => false } };
+    if !writes { println!("note: the MIR fixture is not accepted with a write to the instantaneous rewards under these parameters — third family skipped"); }
+    else {
+        for len in 1..=3usize {
+            for code in 1..(1u32 << len) {
+                let shape: Vec<bool> = (0..len).map(|i| code >> i & 1 == 1).collect();      // true = X
+                let seq: Vec<MultiEraTx> = shape.iter().map(|x| if *x { wrong4() } else { mir() }).collect();
+                let name: String = shape.iter().map(|x| if *x { 'X' } else { 'M' }).collect();
+                let mut s = CertState::default();
+                let r = validate_txs(&seq, &env4, &utxos4, &mut s);
+                n += 1;
+                if r.is_ok() { println!("VIOLATED: sequence [{name}] (M = a transfer of instantaneous rewards, X = a rejected transaction) accepted"); std::process::exit(1); }
+                if !(s.dstate.inst_rewards.0.is_empty() && s.dstate.inst_rewards.1.is_empty()) || !empty(&s) {
+                    println!("VIOLATED: sequence [{name}] failed, yet the caller's certificate state changed: {} reserve and {} treasury entries of instantaneous rewards were committed although the sequence was rejected",
+                        s.dstate.inst_rewards.0.len(), s.dstate.inst_rewards.1.len());
+                    std::process::exit(1);
+                }
             }
         }
     }
